@@ -101,10 +101,13 @@ theorem numOut_value (s : Bytes) (h : wfNumText s = true) :
 
 /-! ### the theorem -/
 
+/-- texts equal, or both numeric literals of equal value -/
+def textEquiv (a b : Bytes) : Prop :=
+  a = b ∨ (∃ v, numValue a = some v ∧ numValue b = some v ∧
+    (a.head?.map numeric = some true) ∧ (b.head?.map numeric = some true))
+
 /-- token texts equal, or both numeric literals of equal value -/
-def tokEquiv (a b : Tok) : Prop :=
-  a.text = b.text ∨ (∃ v, numValue a.text = some v ∧ numValue b.text = some v ∧
-    (a.text.head?.map numeric = some true) ∧ (b.text.head?.map numeric = some true))
+def tokEquiv (a b : Tok) : Prop := textEquiv a.text b.text
 
 theorem textRel_tokEquiv {t t' : Tok} (hwf : wfTok t = true) (h : TextRel t t') : tokEquiv t t' := by
   rcases h with h | h
@@ -168,7 +171,7 @@ theorem render_retokenizes_tokens (toks : List Tok) (comments : Array Bytes) (ou
     ∃ (ps : List Piece), out = piecesBytes ps ∧ (∀ p ∈ ps, p.ok) ∧ ps.flatMap Piece.src = toks ∧
       tokenize out = some (piecesOut 1 ps, piecesC #[] 1 ps) ∧
       toks.length = (piecesOut 1 ps).length ∧ ∀ p ∈ toks.zip (piecesOut 1 ps), tokEquiv p.1 p.2 := by
-  obtain ⟨ps, hout, hok, hsrc⟩ := render_pieces toks comments out hwf hcm hlines hr
+  obtain ⟨ps, hout, hok, hsrc, _⟩ := render_pieces toks comments out hwf hcm hlines hr
   have hlen : ps.length < maxLine := by
     have := pieces_length_le_newlines ps
     rw [← hout] at this
@@ -179,5 +182,74 @@ theorem render_retokenizes_tokens (toks : List Tok) (comments : Array Bytes) (ou
   have hrel' : Forall2 tokEquiv toks (piecesOut 1 ps) :=
     hrel.imp (fun a b ha hab => textRel_tokEquiv (hwf a ha) hab)
   exact ⟨ps, hout, hok, hsrc, by rw [hout]; exact htok, hrel'.length_eq, hrel'.zip⟩
+
+/-! ### the comment half -/
+
+/-- items agree: tokens as `tokEquiv`, comments literally -/
+def itemEquiv : Item → Item → Prop
+  | .tok a, .tok b => textEquiv a b
+  | .com a, .com b => a = b
+  | _, _ => False
+
+theorem Forall2.map {α β γ δ : Type} {R : α → β → Prop} {S : γ → δ → Prop} (f : α → γ) (g : β → δ)
+    {l1 : List α} {l2 : List β} (h : Forall2 R l1 l2) (hrs : ∀ a b, a ∈ l1 → R a b → S (f a) (g b)) :
+    Forall2 S (l1.map f) (l2.map g) := by
+  induction h with
+  | nil => exact Forall2.nil
+  | cons hr _ ih =>
+    exact Forall2.cons (hrs _ _ (by simp) hr) (ih (fun a b ha => hrs a b (by simp [ha])))
+
+theorem piece_itemEquiv (p : Piece) (hp : p.ok) (hwf : ∀ t ∈ p.src, wfTok t = true) :
+    Forall2 itemEquiv p.srcItems p.outItems := by
+  unfold Piece.srcItems Piece.outItems
+  apply Forall2.append
+  · exact Forall2.map _ _ (piece_textRel p hp 0) (fun a b ha hab => textRel_tokEquiv (hwf a ha) hab)
+  · split
+    · exact Forall2.nil
+    · exact Forall2.cons rfl Forall2.nil
+
+theorem pieces_itemEquiv : ∀ (ps : List Piece), (∀ p ∈ ps, p.ok) →
+    (∀ t ∈ ps.flatMap Piece.src, wfTok t = true) →
+    Forall2 itemEquiv (ps.flatMap Piece.srcItems) (ps.flatMap Piece.outItems) := by
+  intro ps
+  induction ps with
+  | nil => intro _ _; exact Forall2.nil
+  | cons p ps ih =>
+    intro hok hwf
+    simp only [List.flatMap_cons]
+    apply Forall2.append
+    · exact piece_itemEquiv p (hok p (by simp)) (fun t ht => hwf t (by simp [ht]))
+    · exact ih (fun q hq => hok q (by simp [hq])) (fun t ht => by
+        apply hwf
+        simp only [List.flatMap_cons, List.mem_append]
+        exact Or.inr ht)
+
+/-- `render_retokenizes` with the comments, for every stream of well-formed tokens (lines not
+decreasing) and comments with the line structure `linesOK`: the interleaved sequence of tokens
+and comments of `Render`'s output, as `Tokenize` reads it, is that of the input — item by item,
+tokens equal as texts or as numbers, comments equal up to trailing spaces. -/
+theorem render_retokenizes_items (toks : List Tok) (comments : Array Bytes) (out : Bytes)
+    (hwf : ∀ t ∈ toks, wfTok t = true) (hcm : wfComments comments)
+    (hlines : linesOK (toks.length + 1) toks = true) (hsorted : SortedLines toks)
+    (hr : render toks comments = some out) (hnl : out.count 10 < maxLine) :
+    ∃ toks' comments', tokenize out = some (toks', comments') ∧
+      toks.length = toks'.length ∧ (∀ p ∈ toks.zip toks', tokEquiv p.1 p.2) ∧
+      Forall2 itemEquiv (items toks comments) (items toks' comments') := by
+  obtain ⟨ps, hout, hok, hsrc, hitems⟩ := render_pieces toks comments out hwf hcm hlines hr
+  have hlen : ps.length < maxLine := by
+    have := pieces_length_le_newlines ps
+    rw [← hout] at this
+    omega
+  have htok := pieces_tokenize ps hok hlen
+  have hrel := pieces_textRel ps hok 1
+  rw [hsrc] at hrel
+  have hrel' : Forall2 tokEquiv toks (piecesOut 1 ps) :=
+    hrel.imp (fun a b ha hab => textRel_tokEquiv (hwf a ha) hab)
+  refine ⟨_, _, by rw [hout]; exact htok, hrel'.length_eq, hrel'.zip, ?_⟩
+  rw [hitems hsorted, items_pieces ps (fun p hp k names m lts com semis he => by
+    have := hok p hp
+    rw [he] at this
+    exact this.2.2.1)]
+  exact pieces_itemEquiv ps hok (by rw [hsrc]; exact hwf)
 
 end WuffsVerif.Render
